@@ -1375,6 +1375,10 @@ impl<'a, T: Sync + AsDb> ViaThreads for Probe<'a, T> {
         std::thread::scope(|sc| {
             let asker = sc.spawn(move || {
                 std::thread::sleep(Duration::from_millis(ask_after_ms));
+                // first a phrase that matches nothing and one the search engine's parser rejects: a miss
+                // and an error are ordinary answers and leave the handle as it was
+                let _ = eval_alone(shared.as_db(), "zzzqx krypton", true, false);
+                let _ = eval_alone(shared.as_db(), "NOT", false, false);
                 own_words(shared.as_db(), s, Perms::Identity, only, None, slot)
             });
             open();
